@@ -590,6 +590,29 @@ def gen_program(rng, size):
     ty = g.rand_type(2)
     while ty[0] == 'fun':
         ty = g.rand_type(2)
+    if rng.random() < 0.2:
+        # a nested object is bound once, read in part and returned whole (both orders): the whole run,
+        # manifestation of the result included, must show every trace of the structure
+        oty = g.rand_type(3)
+        tries = 0
+        while not (oty[0] == 'obj' and oty[1]) and tries < 20:
+            oty = g.rand_type(3); tries += 1
+        if oty[0] == 'obj' and oty[1]:
+            g.kinds.add('part-then-whole')
+            ctx = {'infun': False, 'self': None}
+            lit = g.obj(oty, rng.choice([3, 4]), {}, ctx)
+            rd = ('var', 'pw')
+            t = oty
+            while t[0] == 'obj' and t[1] and (rd == ('var', 'pw') or rng.random() < 0.6):
+                f = rng.choice(sorted(t[1].keys()))
+                rd = ('field', rd, f)
+                t = t[1][f]
+            items = [rd, ('var', 'pw')]
+            if rng.random() < 0.5:
+                items.reverse()
+            if rng.random() < 0.3:
+                items.append(('field', ('var', 'pw'), rng.choice(sorted(oty[1].keys()))))
+            return ('local', [('pw', lit)], ('arr', items)), g
     e = g.expr(ty, rng.choice([3, 4, 5, 6]), {}, {'infun': False, 'self': None})
     return e, g
 
@@ -743,6 +766,7 @@ class Sites:
 
     def __init__(self, fields_once):
         self.exprs, self.binds, self.objects, self.funcs = [], [], [], []
+        self.arrays, self.fieldsets, self.eqs = [], [], []   # permutable element slots / field slots / == operands
         self.fields_once = fields_once
         self.has_import = False
 
@@ -760,6 +784,8 @@ class Sites:
         elif h == 'Object':
             self.obj_inside(n[2], a, multi)
         elif h == 'Array':
+            if len(n) >= 4:
+                self.arrays.append([span_of(x) for x in n[2:]])
             for x in n[2:]:
                 sa, sb = span_of(x)
                 self.binds.append((sa, sb, multi, 'item'))
@@ -794,6 +820,8 @@ class Sites:
             if n[4] != '_':
                 self.walk(n[4], multi)
         elif h == 'Binary':
+            if n[3] in ('Eq', 'Ne'):
+                self.eqs.append((span_of(n[2]), span_of(n[4])))
             self.walk(n[2], multi); self.walk(n[4], multi)
         elif h == 'Unary':
             self.walk(n[3], multi)
@@ -851,6 +879,17 @@ class Sites:
         inner_multi = multi if self.fields_once else True
         if o[0] == 'Members':
             self.objects.append((open_pos, multi))
+            slots = []
+            for m in o[1:]:
+                if m[0] == 'MField':
+                    f = m[1]
+                    fn = f[1]
+                    ns = fn[1][1] if fn[0] == 'FnIdent' else fn[2]
+                    start = int(ns.split(':')[0], 16)
+                    end = span_of(f[4] if f[0] == 'FValue' else f[5])[1]
+                    slots.append((start, end))
+            if len(slots) >= 2:
+                self.fieldsets.append(slots)
             for m in o[1:]:
                 if m[0] == 'MLocal':
                     self.bind(m[1], inner_multi)
@@ -879,6 +918,34 @@ class Sites:
             for l in o[5][1:]:
                 self.bind(l, True)
             self.specs(o[6], multi)
+
+
+def tail_array(root):
+    """element spans of the array literal in tail position of the program (through locals / parentheses / asserts)"""
+    n = root
+    while True:
+        if n[0] == 'Local':
+            n = n[3]
+        elif n[0] == 'Paren':
+            n = n[2]
+        elif n[0] == 'Assert':
+            n = n[3]
+        else:
+            break
+    if n[0] == 'Array' and len(n) >= 4:
+        return [span_of(x) for x in n[2:]]
+    return None
+
+
+def permute_slots(src, slots, perm, paren=False):
+    """slot i receives the text of slot perm[i]"""
+    texts = [src[a:e] for a, e in slots]
+    out = src
+    for i in sorted(range(len(slots)), key=lambda i: -slots[i][0]):
+        a, e = slots[i]
+        t = texts[perm[i]]
+        out = out[:a] + (b'(' + t + b')' if paren else t) + out[e:]
+    return out
 
 
 def token_spans(toks_text):
@@ -964,6 +1031,7 @@ class Base:
         self.src = src
         self.fields_once = fields_once
         self.exhaustive = exhaustive      # every expression site x every wrapping rewrite (small programs)
+        self.expect = None                # generator-known trace multiset of a successful run (list) or None
         self.sites = None
         self.toks = None
 
@@ -988,6 +1056,10 @@ def analyse_bases(bases, impl_exe):
             continue
         b.sites = s
         b.toks = token_spans(f[1])
+        try:
+            b.tail = tail_array(sexp_parse(f[2]))
+        except Exception:
+            b.tail = None
         good.append(b)
     return good
 
@@ -1040,6 +1112,25 @@ def plan_variants(b, rng, per_prog):
             kind = rng.choice(['local-name', 'identity', 'array-proj'])
         k += 1
         out.append((kind, '%x:%x' % (a, e), rewrite(src, kind, (a, e), k, rng.choice(deads))))
+    # permutations: same value (up to the permutation), same trace multiset
+    def rperm(n):
+        p = list(range(n))
+        while p == list(range(n)):
+            rng.shuffle(p)
+        return p
+    if getattr(b, 'tail', None):
+        for _ in range(2 if len(b.tail) > 2 else 1):
+            p = rperm(len(b.tail))
+            out.append(('permute-tail-array', ','.join(str(x) for x in p), permute_slots(src, b.tail, p)))
+    fss = list(s.fieldsets)
+    rng.shuffle(fss)
+    for slots in fss[:max(1, per_prog // 3)]:
+        p = rperm(len(slots))
+        out.append(('permute-fields', '%x' % slots[0][0], permute_slots(src, slots, p)))
+    eqs = list(s.eqs)
+    rng.shuffle(eqs)
+    for (l, r) in eqs[:max(1, per_prog // 3)]:
+        out.append(('swap-eq', '%x' % l[0], permute_slots(src, [l, r], [1, 0], paren=True)))
     txt = src.decode('utf-8', 'replace')
     if not any(h in txt for h in HIDDEN_OBSERVERS):
         objs = list(s.objects)
@@ -1075,6 +1166,26 @@ def same_outcome(c0, c1, ordered=True):
 UNSTABLE = ('StackOverflow',)
 
 
+def perm_why(kind, where, c0, c1):
+    """base (successful) vs permuted program: same value up to the permutation, same trace multiset"""
+    if c1[0] != 'ok':
+        return 'outcome class ok -> %s (%s)' % (c1[0], str(c1[1])[:80])
+    if sorted(c0[2]) != sorted(c1[2]):
+        return 'trace multiset %s -> %s' % (c0[2][:10], c1[2][:10])
+    if kind == 'permute-tail-array':
+        try:
+            j0, j1 = freeze(json_pairs(c0[1])), freeze(json_pairs(c1[1]))
+            p = [int(x) for x in where.split(',')]
+            if not (j0[0] == 'A' and j1[0] == 'A' and len(j0[1]) == len(p) == len(j1[1]) and all(j1[1][i] == j0[1][p[i]] for i in range(len(p)))):
+                return 'value is not the permuted value: %s -> %s' % (c0[1][:80], c1[1][:80])
+        except ValueError:
+            if sorted(c0[1]) != sorted(c1[1]):
+                return 'value %s -> %s' % (c0[1][:80], c1[1][:80])
+    elif c0[1] != c1[1]:
+        return 'value %s -> %s' % (c0[1][:100], c1[1][:100])
+    return None
+
+
 def metamorphic(run, bases, impl_exe, rng, per_prog, label):
     bases = analyse_bases(bases, impl_exe)
     cases = []
@@ -1099,6 +1210,18 @@ def metamorphic(run, bases, impl_exe, rng, per_prog, label):
     res = vlib.run_sharded(impl_exe, [vlib.impl_line(c) for c in cases], timeout=300)
     for cid, (b, kind, where, new) in meta.items():
         if kind == 'base':
+            if b.expect is not None:
+                run.evaluations += 1
+                c0 = canon_impl(res.get(cid, 'NOOUTPUT'))
+                if c0[0] == 'ok' and sorted(c0[2]) != sorted(b.expect):
+                    run.violation('whole-value-trace-output', 'the program returns its whole structure, so every traced leaf must be evaluated exactly once '
+                                  'during the run: expected trace multiset %s, got %s — %s' % (sorted(b.expect)[:12], sorted(c0[2])[:12], b.src.decode('utf-8', 'replace')[:300]),
+                                  {'kind': 'expect', 'label': b.label, 'base_hex': hxl(list(b.src)), 'expect': sorted(b.expect)})
+                elif c0[0] == 'ok':
+                    run.count(label + ':whole-value-traces-complete')
+                    run.nontrivial.add((b.label, 'expect'))
+                else:
+                    run.count(label + ':expect-base-' + c0[0])
             continue
         run.evaluations += 1
         base_id = cid.split('.')[0]
@@ -1146,6 +1269,17 @@ def metamorphic(run, bases, impl_exe, rng, per_prog, label):
                 outer.append((a, e))
             if outer:
                 phase2.append((b, c0, outer))
+            continue
+        if kind in ('permute-tail-array', 'permute-fields', 'swap-eq'):
+            if c0[0] != 'ok':
+                run.count(label + ':skipped-permutation-of-failing-base')
+                continue
+            why = perm_why(kind, where, c0, c1)
+            if why:
+                run.violation('permutation-changes-outcome:' + kind, 'rewrite %s (%s) of %s changes the outcome: %s' % (kind, where, b.label, why), replay)
+            else:
+                run.count(label + ':' + kind)
+                run.nontrivial.add((b.label, kind, where))
             continue
         if kind == 'dead-param' and c0[0] == 'err' and c0[1][0] == 'TooManyCallArgs':
             run.count(label + ':skipped-arity-error')
@@ -1251,6 +1385,100 @@ def gen_rich(rng):
     if r < 0.8:
         return 'local top = %s; {r: top, again: top}' % body
     return '{out: %s}' % body
+
+
+# ---------------------------------------------------------------- nested structures read in part, then returned whole
+# A nested structure (literal objects/arrays, object and array comprehensions, std.mapWithKey / std.map
+# results) with a uniquely named std.trace at every leaf is bound once, read IN PART (a constant field, a
+# traced leaf, std.length, std.objectHas, `in`, std.objectFields, an element) and also returned WHOLE, in a
+# random order.  Whatever the order, the run must evaluate every leaf exactly once, so the generator knows the
+# trace multiset of a successful run.
+
+def gen_nested(rng):
+    cnt = [0]
+    expect = []
+
+    def fresh(pfx):
+        cnt[0] += 1
+        return '%s%d' % (pfx, cnt[0])
+
+    def leaf():
+        m = fresh('n-')
+        expect.append(m)
+        return ('std.trace("%s", %s)' % (m, rng.choice(['"localhost"', '5432', 'true', 'null', '[1, 2]', '{z: 1}'])), ('leaf',))
+
+    def struct(d):
+        r = rng.random()
+        if d <= 0 or r < 0.15:
+            if rng.random() < 0.7:
+                return leaf()
+            return (rng.choice(['5432', '"const"', 'null']), ('const',))
+        if r < 0.45:
+            fs = {}
+            parts = []
+            for f in rng.sample(['host', 'port', 'db', 'opts', 'k'], rng.randint(1, 3)):
+                t, sh = struct(d - 1)
+                fs[f] = sh
+                parts.append('%s%s %s' % (f, rng.choice([':', ':', ':', '::']) if False else ':', t))
+            return ('{ ' + ', '.join(parts) + ' }', ('obj', fs))
+        if r < 0.6:
+            items = [struct(d - 1) for _ in range(rng.randint(1, 3))]
+            return ('[' + ', '.join(t for t, _ in items) + ']', ('arr', [sh for _, sh in items]))
+        if r < 0.72:
+            pfx = fresh('oc') + '-'
+            keys = rng.sample(['p', 'q', 'r'], rng.randint(1, 3))
+            for k in keys:
+                expect.append(pfx + k)
+            inner = ('obj', {'v': ('leaf',), 'w': ('const',)})
+            return ('{ [k]: { v: std.trace("%s" + k, k), w: 1 } for k in %s }' % (pfx, json.dumps(keys)), ('obj', {k: inner for k in keys}))
+        if r < 0.84:
+            pfx = fresh('mw') + '-'
+            keys = rng.sample(['a', 'b', 'c'], rng.randint(1, 3))
+            for k in keys:
+                expect.append(pfx + k)
+            inner = ('obj', {'w': ('leaf',), 'c': ('const',)})
+            src = '{ ' + ', '.join('%s: %d' % (k, i) for i, k in enumerate(keys)) + ' }'
+            return ('std.mapWithKey(function(k, v) { w: std.trace("%s" + k, v), c: 0 }, %s)' % (pfx, src), ('obj', {k: inner for k in keys}))
+        pfx = fresh('ac') + '-'
+        n = rng.randint(1, 3)
+        for i in range(1, n + 1):
+            expect.append('%s%d' % (pfx, i))
+        inner = ('obj', {'i': ('leaf',), 'c': ('const',)})
+        lst = '[' + ', '.join(str(i) for i in range(1, n + 1)) + ']'
+        if rng.random() < 0.5:
+            return ('[{ i: std.trace("%s" + x, x), c: 0 } for x in %s]' % (pfx, lst), ('arr', [inner] * n))
+        return ('std.map(function(x) { i: std.trace("%s" + x, x), c: 0 }, %s)' % (pfx, lst), ('arr', [inner] * n))
+
+    def read(x, sh):
+        k = sh[0]
+        if k == 'obj' and sh[1]:
+            f = rng.choice(sorted(sh[1].keys()))
+            r = rng.random()
+            if r < 0.5:
+                return read('%s.%s' % (x, f), sh[1][f])
+            return rng.choice(['std.length(%s)' % x, 'std.objectHas(%s, "%s")' % (x, f), '"%s" in %s' % (f, x),
+                               'std.objectFields(%s)' % x, 'std.objectHas(%s, "nosuch")' % x])
+        if k == 'arr' and sh[1]:
+            i = rng.randrange(len(sh[1]))
+            if rng.random() < 0.6:
+                return read('%s[%d]' % (x, i), sh[1][i])
+            return 'std.length(%s)' % x
+        if k == 'leaf':
+            return x if rng.random() < 0.5 else 'std.type(%s)' % x
+        return x
+
+    t, sh = struct(rng.choice([2, 2, 3]))
+    while sh[0] not in ('obj', 'arr'):
+        cnt[0] = 0; del expect[:]
+        t, sh = struct(rng.choice([2, 2, 3]))
+    items = [read('s', sh) for _ in range(rng.choice([1, 1, 2, 3]))] + ['s']
+    rng.shuffle(items)
+    if rng.random() < 0.75:
+        body = '[' + ', '.join(items) + ']'
+    else:
+        names = rng.sample(['a', 'b', 'c', 'd', 'e'], len(items))
+        body = '{ ' + ', '.join('%s: %s' % (n, it) for n, it in zip(names, items)) + ' }'
+    return 'local s = %s; %s' % (t, body), list(expect)
 
 
 # ---------------------------------------------------------------- leaves
@@ -1536,6 +1764,12 @@ def check(run):
     nleaf = 150 if quick else 2500
     for i in range(nleaf):
         bases.append(Base('leaf-%d' % i, gen_leaf(rng, i).encode('utf-8'), False, exhaustive=True))
+    nn = 150 if quick else 4000
+    for i in range(nn):
+        src, expect = gen_nested(rng)
+        bb = Base('nested-%d' % i, src.encode('utf-8'), True)
+        bb.expect = expect
+        bases.append(bb)
     no = 150 if quick else 6000
     for i in range(no):
         bases.append(Base('objloc-%d' % i, gen_objloc(rng).encode('utf-8'), True))
@@ -1567,6 +1801,14 @@ def replay(run, path):
             why = 'implementation crash'
         if why:
             run.violation(j.get('key', 'lazycore-correspondence'), why, r)
+    elif isinstance(r, dict) and r.get('kind') == 'expect':
+        impl_exe = vlib.build_harness()
+        base = bytes(int(x, 16) for x in r['base_hex'].split(','))
+        res = vlib.run_lines(impl_exe, [vlib.impl_line(('b', 'eval', ['stack=%x' % STACK, hxl(list(base))]))])
+        c0 = canon_impl(res.get('b', 'NOOUTPUT'))
+        print('program:', base.decode('utf-8', 'replace')[:1500]); print('  ->', c0); print('expected traces:', r['expect'])
+        if c0[0] == 'ok' and sorted(c0[2]) != sorted(r['expect']):
+            run.violation(j.get('key', 'whole-value-trace-output'), 'trace multiset %s, expected %s' % (sorted(c0[2]), r['expect']), r)
     elif isinstance(r, dict) and r.get('kind') == 'meta':
         impl_exe = vlib.build_harness()
         base = bytes(int(x, 16) for x in r['base_hex'].split(',')) if r['base_hex'] else b''
@@ -1576,7 +1818,11 @@ def replay(run, path):
         c0, c1 = canon_impl(res.get('b', 'NOOUTPUT')), canon_impl(res.get('n', 'NOOUTPUT'))
         print('base     :', base.decode('utf-8', 'replace')[:1500]); print('  ->', c0)
         print('rewritten:', new.decode('utf-8', 'replace')[:1500]); print('  ->', c1)
-        if r['rewrite'] == 'once':
+        if r['rewrite'] in ('permute-tail-array', 'permute-fields', 'swap-eq'):
+            why = perm_why(r['rewrite'], r['where'], c0, c1) if c0[0] == 'ok' else None
+            if why:
+                run.violation(j.get('key', 'permutation'), why, r)
+        elif r['rewrite'] == 'once':
             tr = [m for m in c1[2] if m.startswith('once-')]
             rest = [m for m in c1[2] if not m.startswith('once-')]
             why = same_outcome(c0, (c1[0], c1[1], rest))
